@@ -51,6 +51,8 @@ where
                 assert!(n > 0 && n <= piece.len() - off, "poll_write returned {n} for {} bytes", piece.len() - off);
                 off += n;
             }
+            // a flush in the middle of the stream is a flush - nothing ends, nothing is lost
+            poll_fn(|cx| Pin::new(&mut *tx).poll_flush(cx)).await.expect("flush");
         }
         poll_fn(|cx| Pin::new(&mut *tx).poll_flush(cx)).await.expect("flush");
         poll_fn(|cx| Pin::new(&mut *tx).poll_shutdown(cx)).await.expect("shutdown");
@@ -188,6 +190,50 @@ where
     got
 }
 
+/// sockets under back-pressure: nobody reads while the writer (plain or vectored, slices of 300 KiB + 1, so that the last accepted write is a partial one) goes on until the
+/// kernel refuses; what it was TOLD was accepted must be exactly what a reader then finds, in order
+async fn socket_backpressure<W, R>(what: &str, tx: &mut W, rx: &mut R, vectored: bool)
+where
+    W: AsyncWrite + Unpin,
+    R: AsyncRead + Unpin,
+{
+    let d = data(8 << 20);
+    let mut done = 0usize;
+    // the first write awaits write readiness; afterwards readiness stays cached until the kernel says WouldBlock
+    let mut first = true;
+    loop {
+        let rest = &d[done..];
+        let k = 300 * 1024 + 1;
+        let slices: Vec<IoSlice<'_>> = rest.chunks(k).take(3).map(IoSlice::new).collect();
+        let r = if first {
+            Poll::Ready(if vectored {
+                poll_fn(|cx| Pin::new(&mut *tx).poll_write_vectored(cx, &slices)).await
+            } else {
+                poll_fn(|cx| Pin::new(&mut *tx).poll_write(cx, &rest[..k.min(rest.len())])).await
+            })
+        } else if vectored {
+            once(|cx| Pin::new(&mut *tx).poll_write_vectored(cx, &slices)).await
+        } else {
+            once(|cx| Pin::new(&mut *tx).poll_write(cx, &rest[..k.min(rest.len())])).await
+        };
+        first = false;
+        match r {
+            Poll::Ready(Ok(n)) => {
+                assert!(n > 0 && n <= rest.len());
+                done += n;
+            }
+            Poll::Ready(Err(e)) => panic!("{what}: write failed: {e}"),
+            Poll::Pending => break,
+        }
+        assert!(done < d.len(), "{what}: the kernel took 8 MiB without a reader");
+    }
+    tokio::time::timeout(T, poll_fn(|cx| Pin::new(&mut *tx).poll_shutdown(cx))).await.expect("timed out").expect("shutdown");
+    let mut nowhere = tokio::io::sink();
+    let got = transfer(&mut nowhere, rx, &[], 1, 64 * 1024).await;
+    assert_eq!(got.len(), done, "{what}: bytes reported as written vs bytes that arrived (vectored: {vectored})");
+    assert!(got == d[..done], "{what}: content under back-pressure (vectored: {vectored})");
+}
+
 async fn vectored_sweep<W, R, F>(what: &str, mut mk: F)
 where
     W: AsyncWrite + Unpin,
@@ -321,6 +367,10 @@ async fn tcp_byte_exact_body() {
             assert_eq!(got, d, "TcpStream vectored, cut at {i}, {j}");
         }
     }
+    for vectored in [false, true] {
+        let (mut tx, mut rx) = tcp_pair().await;
+        socket_backpressure("TcpStream", &mut tx, &mut rx, vectored).await;
+    }
     let (a, _b) = tcp_pair().await;
     assert_eq!(a.is_write_vectored(), AsyncWrite::is_write_vectored(std::ops::Deref::deref(&a)));
 }
@@ -340,6 +390,10 @@ async fn unix_byte_exact_body() {
             let got = vectored_transfer(&mut tx, &mut rx, &d, i, j).await;
             assert_eq!(got, d, "UnixStream vectored, cut at {i}, {j}");
         }
+    }
+    for vectored in [false, true] {
+        let (mut tx, mut rx) = unix_pair();
+        socket_backpressure("UnixStream", &mut tx, &mut rx, vectored).await;
     }
     let (a, _b) = unix_pair();
     assert_eq!(a.is_write_vectored(), AsyncWrite::is_write_vectored(std::ops::Deref::deref(&a)));
